@@ -256,6 +256,95 @@ func runPPS(nalu []byte, arg string) (r result) {
 	return r
 }
 
+// mapsOf parses the parameter sets listed in a SLICE case ("sps,sps;pps,pps") with the implementation itself.
+func mapsOf(arg string) (map[uint32]*avc.SPS, map[uint32]*avc.PPS) {
+	spsMap := map[uint32]*avc.SPS{}
+	ppsMap := map[uint32]*avc.PPS{}
+	parts := strings.Split(arg, ";")
+	if len(parts) != 2 {
+		return spsMap, ppsMap
+	}
+	for _, h := range strings.Split(parts[0], ",") {
+		if h == "" {
+			continue
+		}
+		if s, err := avc.ParseSPSNALUnit(hx.UnHex(h), true); err == nil {
+			spsMap[s.ParameterID] = s
+		}
+	}
+	for _, h := range strings.Split(parts[1], ",") {
+		if h == "" {
+			continue
+		}
+		if p, err := avc.ParsePPSNALUnit(hx.UnHex(h), spsMap); err == nil {
+			ppsMap[p.PicParameterSetID] = p
+		}
+	}
+	return spsMap, ppsMap
+}
+
+func flatSlice(h *avc.SliceHeader) *flat {
+	f := &flat{}
+	f.u("SliceType", uint64(h.SliceType))
+	f.u("FirstMBInSlice", uint64(h.FirstMBInSlice))
+	f.u("PicParamID", uint64(h.PicParamID))
+	f.u("SeqParamID", uint64(h.SeqParamID))
+	f.u("ColorPlaneID", uint64(h.ColorPlaneID))
+	f.u("FrameNum", uint64(h.FrameNum))
+	f.u("IDRPicID", uint64(h.IDRPicID))
+	f.u("PicOrderCntLsb", uint64(h.PicOrderCntLsb))
+	f.i("DeltaPicOrderCntBottom", int64(h.DeltaPicOrderCntBottom))
+	f.i("DeltaPicOrderCnt[0]", int64(h.DeltaPicOrderCnt[0]))
+	f.i("DeltaPicOrderCnt[1]", int64(h.DeltaPicOrderCnt[1]))
+	f.u("RedundantPicCnt", uint64(h.RedundantPicCnt))
+	f.u("NumRefIdxL0ActiveMinus1", uint64(h.NumRefIdxL0ActiveMinus1))
+	f.u("NumRefIdxL1ActiveMinus1", uint64(h.NumRefIdxL1ActiveMinus1))
+	f.u("ModificationOfPicNumsIDC", uint64(h.ModificationOfPicNumsIDC))
+	f.u("AbsDiffPicNumMinus1", uint64(h.AbsDiffPicNumMinus1))
+	f.u("LongTermPicNum", uint64(h.LongTermPicNum))
+	f.u("AbsDiffViewIdxMinus1", uint64(h.AbsDiffViewIdxMinus1))
+	f.u("LumaLog2WeightDenom", uint64(h.LumaLog2WeightDenom))
+	f.u("ChromaLog2WeightDenom", uint64(h.ChromaLog2WeightDenom))
+	f.u("DifferenceOfPicNumsMinus1", uint64(h.DifferenceOfPicNumsMinus1))
+	f.u("LongTermFramIdx", uint64(h.LongTermFramIdx))
+	f.u("MaxLongTermFrameIdxPlus1", uint64(h.MaxLongTermFrameIdxPlus1))
+	f.u("CabacInitIDC", uint64(h.CabacInitIDC))
+	f.i("SliceQPDelta", int64(h.SliceQPDelta))
+	f.i("SliceQSDelta", int64(h.SliceQSDelta))
+	f.u("DisableDeblockingFilterIDC", uint64(h.DisableDeblockingFilterIDC))
+	f.i("SliceAlphaC0OffsetDiv2", int64(h.SliceAlphaC0OffsetDiv2))
+	f.i("SliceBetaOffsetDiv2", int64(h.SliceBetaOffsetDiv2))
+	f.u("SliceGroupChangeCycle", uint64(h.SliceGroupChangeCycle))
+	f.u("Size", uint64(h.Size))
+	f.b("FieldPicFlag", h.FieldPicFlag)
+	f.b("BottomFieldFlag", h.BottomFieldFlag)
+	f.b("DirectSpatialMvPredFlag", h.DirectSpatialMvPredFlag)
+	f.b("NumRefIdxActiveOverrideFlag", h.NumRefIdxActiveOverrideFlag)
+	f.b("RefPicListModificationL0Flag", h.RefPicListModificationL0Flag)
+	f.b("RefPicListModificationL1Flag", h.RefPicListModificationL1Flag)
+	f.b("NoOutputOfPriorPicsFlag", h.NoOutputOfPriorPicsFlag)
+	f.b("LongTermReferenceFlag", h.LongTermReferenceFlag)
+	f.b("SPForSwitchFlag", h.SPForSwitchFlag)
+	f.b("AdaptiveRefPicMarkingModeFlag", h.AdaptiveRefPicMarkingModeFlag)
+	return f
+}
+
+func runSlice(nalu []byte, arg string) (r result) {
+	p := hx.Try(func() {
+		spsMap, ppsMap := mapsOf(arg)
+		h, err := avc.ParseSliceHeader(hx.Exact(nalu), spsMap, ppsMap)
+		if err != nil {
+			r = result{outcome: "err", errStr: err.Error()}
+			return
+		}
+		r = result{outcome: "ok", f: flatSlice(h)}
+	})
+	if p != "" {
+		r = result{outcome: "panic", errStr: p}
+	}
+	return r
+}
+
 type caseLine struct {
 	kind, id, arg, nalu, g, exp string
 }
@@ -287,6 +376,8 @@ func runCase(c caseLine) result {
 		return runSPS(nalu, c.arg == "1")
 	case "PPS":
 		return runPPS(nalu, c.arg)
+	case "SLICE":
+		return runSlice(nalu, c.arg)
 	}
 	return runHevcCase(c, nalu)
 }
@@ -453,12 +544,25 @@ func corr(cases []caseLine, repo string) {
 	}
 }
 
+// classifySlice: a slice whose PPS uses slice-group map types 3..5 carries slice_group_change_cycle, whose
+// width the implementation derives from a PPS field that is not coded for these map types.
+func classifySlice(r result, bad []string) string {
+	for _, b := range bad {
+		if b != "SliceGroupChangeCycle" && b != "Size" {
+			return "field-mismatch"
+		}
+	}
+	return "slice-group-change-cycle-width"
+}
+
 func siteOf(kind string) string {
 	switch kind {
 	case "SPS":
 		return "avc.ParseSPSNALUnit"
 	case "PPS":
 		return "avc.ParsePPSNALUnit"
+	case "SLICE":
+		return "avc.ParseSliceHeader"
 	}
 	return hevcSiteOf(kind)
 }
@@ -517,6 +621,9 @@ func search(cases []caseLine) {
 		}
 		if onlyOff && c.kind == "SPS" {
 			class = "se-read-as-ue"
+		}
+		if c.kind == "SLICE" {
+			class = classifySlice(r, bad)
 		}
 		if cl := classifyHevc(c, bad); cl != "" {
 			class = cl
